@@ -305,8 +305,8 @@ def reference(lex: dict, inv: dict) -> dict:
                 out['W501'].append(Offence(ss['id'], False, ctx(r)))
                 continue
             ps = pos_of[tgt]
-            clear = (t == 'hypernym' and sp is not None
-                     and all(p is not None and p != sp for p in ps))
+            # an absent part of speech is different from a present one (two absent ones are not)
+            clear = t == 'hypernym' and all(p != sp for p in ps)
             if clear:
                 out['W501'].append(Offence(ss['id'], True, ctx(r)))
             elif any(p != sp for p in ps):
